@@ -585,6 +585,24 @@ def whole_of(t, eng=None, ordered=False):
             t = t.args[0]
         elif op == "iter":
             t = t.args[0]
+        elif op == "chained":
+            # once(first).chain(rest): `first = it.next()` followed by the remaining elements of the same source is a
+            # complete, ordered traversal of that source
+            a, b = t.args[0], t.args[1]
+            if not (is_t(b) and b.op == "adapted" and b.args[1] == "skip" and is_t(b.args[2]) and b.args[2].op == "int" and b.args[2].args[0] == 1):
+                return None
+            src = whole_of(b.args[0], eng, ordered)
+            one = a.args[0] if is_t(a) and a.op == "iter" else None
+            if src is None or not (is_t(one) and one.op == "agg" and one.args[0] == "array" and len(one.args) == 2):
+                return None
+            f = one.args[1]
+            n_ = 0
+            while is_t(f) and f.op in ("refv", "deref", "conv", "copied", "cloned") and len(f.args) == 1 and n_ < 8:
+                f = f.args[0]
+                n_ += 1
+            if is_t(f) and f.op == "index" and is_t(f.args[1]) and f.args[1].op == "int" and f.args[1].args[0] == 0 and f.args[0] is src:
+                return src
+            return None
         elif op == "phi" and eng is not None:
             pr = parts_of(t)
             first_src = None
